@@ -1,11 +1,11 @@
 INIT Init
 NEXT Next
 CONSTANTS
- Ovh <- OvhBig
- RCf <- RCBig
- MaxMods = 3
+ Ovh <- OvhDef
+ RCf <- RCDef
+ MaxMods = 2
  RestoreOnFailure = TRUE
- PalSelf = FALSE
+ PalSelf = TRUE
  Faults <- NoFault
 INVARIANT C03_OutcomeIsExpected
 INVARIANT C03_EachModuleOnce
